@@ -261,6 +261,11 @@ class Fixture:
 
     @staticmethod
     def kill_group(p, sig=signal.SIGKILL):
+        """Kill the process group led by p (p itself and whatever it left behind). Once p has been reaped its pid may be
+        handed out again: a LIVE process with that pid is then somebody else's (a process group id stays reserved only
+        while members of the old group remain, and the old leader is gone) - never signal that."""
+        if p.poll() is not None and os.path.exists("/proc/%d" % p.pid):
+            return
         try:
             os.killpg(p.pid, sig)
         except (ProcessLookupError, PermissionError):
